@@ -340,6 +340,7 @@ class Repo:
                     self._renamed(mn, qn)
         self.renamed_attrs: dict = {}
         self._normalise_renames()
+        self._role_anchors()
         # a method given as `name = staticmethod(function defined elsewhere)` is a method of the class
         for m in list(self.modules.values()):
             for ci, name, expr, kind in m.method_aliases:
@@ -477,6 +478,70 @@ class Repo:
                     if new_ in c.attrs and old_ not in c.attrs:
                         c.attrs[old_] = c.attrs.pop(new_)
                         c.attr_nodes[old_] = c.attr_nodes.pop(new_)
+
+    def _role_anchors(self):
+        """Anchors that are re-found by what they do when name AND signature changed (a rename-invariant fingerprint cannot match
+        then).  One entry per anchor the rules cannot do without; each finder states the role in structural facts and names the
+        parameters by their use.  The function is then known under the old name, with the old parameter names and order."""
+        mn, cn, old = "suit_generator.suit.types.common", "SuitKeyValue", "_get_method_and_name"
+        m = self.modules.get(mn)
+        ci = m.classes.get(cn) if m else None
+        if ci is None or old in ci.methods:
+            return
+        # the table lookup of the key-value node: a private method that compares getattr(<entry key>, <attribute parameter>) with
+        # <wanted-key parameter> while going over `_metadata.map`
+        cands = []
+        for n, f in ci.methods.items():
+            if not n.startswith("_") or n.startswith("__") or any(f is c_[0] for c_ in cands):
+                continue
+            params = [a.arg for a in f.node.args.posonlyargs + f.node.args.args + f.node.args.kwonlyargs]
+            src = ast.unparse(f.node)
+            if "_metadata.map" not in src:
+                continue
+            for x in ast.walk(f.node):
+                if isinstance(x, ast.Compare) and len(x.ops) == 1 and isinstance(x.ops[0], ast.Eq):
+                    sides = [x.left, x.comparators[0]]
+                    ga = [s_ for s_ in sides if isinstance(s_, ast.Call) and isinstance(s_.func, ast.Name) and s_.func.id == "getattr" and len(s_.args) == 2
+                          and isinstance(s_.args[1], ast.Name) and s_.args[1].id in params]
+                    ky = [s_ for s_ in sides if isinstance(s_, ast.Name) and s_.id in params]
+                    if len(ga) == 1 and len(ky) == 1:
+                        cands.append((f, ky[0].id, ga[0].args[1].id))
+                        break
+        if len(cands) != 1:
+            return
+        f, keyp, attrp = cands[0]
+        import copy
+        node = copy.deepcopy(f.node)
+        a = node.args
+        # keyword-only parameters become ordinary ones again, in the order (cls, key, attribute)
+        allp = a.posonlyargs + a.args + a.kwonlyargs
+        first = allp[0] if allp and allp[0].arg in ("cls", "self") else None
+        byname = {x.arg: x for x in allp}
+        dflt = {}
+        pos_all = a.posonlyargs + a.args
+        for x, d in zip(pos_all[len(pos_all) - len(a.defaults):], a.defaults):
+            dflt[x.arg] = d
+        for x, d in zip(a.kwonlyargs, a.kw_defaults):
+            if d is not None:
+                dflt[x.arg] = d
+        if set(byname) - {first.arg if first else None} != {keyp, attrp}:
+            return
+        a.posonlyargs, a.kwonlyargs, a.kw_defaults = [], [], []
+        a.args = ([first] if first else []) + [byname[keyp], byname[attrp]]
+        a.defaults = [dflt[attrp]] if attrp in dflt and keyp not in dflt else ([dflt[keyp], dflt[attrp]] if keyp in dflt and attrp in dflt else [])
+        back = {keyp: "key", attrp: "attribute"}
+        for n in ast.walk(node):
+            if isinstance(n, ast.Name) and n.id in back:
+                n.id = back[n.id]
+            elif isinstance(n, ast.arg) and n.arg in back:
+                n.arg = back[n.arg]
+        new_name = f.name
+        self.relocated[f"{mn}:{cn}.{old}"] = f.fq
+        f.node, f.kw_alias = node, {k_: v_ for k_, v_ in back.items() if k_ != v_}
+        f.name, f.qualname = old, f"{cn}.{old}"
+        m.functions[f.qualname] = f
+        ci.methods[old] = f
+        ci.methods[new_name] = f
 
     def _renamed(self, modname: str, qualname: str) -> Optional[FuncInfo]:
         """A private function that was renamed (with its parameters, locals and the private names it uses) keeps its structure:
